@@ -52,6 +52,8 @@ func vhFixture() []vhExpected {
 			greq.Req{Path: []greq.KV{{"name", "t"}}, Query: []greq.KV{{"big", "123456789012"}}}},
 		{"GET", "/api/scale", "ItemsController.Scale", vhSecS0,
 			greq.Req{Query: []greq.KV{{"ratio", "1.5"}}}},
+		{"GET", "/api/wide", "ItemsController.Wide", vhSecS0,
+			greq.Req{Query: []greq.KV{{"p0", "1"}, {"p1", "1"}, {"p2", "1"}, {"p3", "1"}, {"p4", "1"}, {"p5", "1"}, {"p7", "1"}, {"p9", "x"}}}},
 	}
 }
 
